@@ -4,7 +4,7 @@
    inside int64. Under the explicit range hypotheses [Rng] (state) and [arg_ok] (operation
    arguments) it never overflows and returns exactly what the unbounded model returns. *)
 From Coq Require Import ZArith List Bool Arith Lia.
-From LTV Require Import Params_gen.
+From LTV.C19 Require Import ParamsGen.
 From LTV.C19 Require Import Model ProofsHeap ProofsSched ProofsRun.
 Import ListNotations.
 Open Scope Z_scope.
@@ -68,12 +68,12 @@ Proof.
   intros. unfold chk. destruct (Z.leb_spec i64_lo z); [|lia]. destruct (Z.ltb_spec z i64_hi); [|lia]. reflexivity.
 Qed.
 
-Lemma max_for_bound : forall y, In y [Params.sched_max_years_wait_for; Params.sched_max_years_wait_for_ceil;
-                                       Params.sched_max_years_update_for; Params.sched_max_years_update_for_ceil] ->
+(* side conditions on the constants (checked at run time on the values probed from the compiled library) *)
+Definition max_ok : Prop :=
+  forall y, In y [Params.sched_max_years_wait_for; Params.sched_max_years_wait_for_ceil;
+                  Params.sched_max_years_update_for; Params.sched_max_years_update_for_ceil] ->
   max_for y <= 2 ^ 49.
-Proof.
-  intros y H. simpl in H. destruct H as [<-|[<-|[<-|[<-|[]]]]]; vm_compute; discriminate.
-Qed.
+Definition min_ok : Prop := 0 < min_time_wait /\ 0 < min_time_update.
 
 Lemma ceil_chk_some : forall t, - 2 ^ 63 + 1 <= t <= 2 ^ 62 + 2 ^ 49 -> ceil_chk t = Some (ceil_seconds t).
 Proof.
@@ -90,10 +90,10 @@ Qed.
 Lemma ceil_upper : forall t, ceil_seconds t <= Z.max 0 (t + 999999).
 Proof. intros. unfold ceil_seconds. lia. Qed.
 
-Theorem exec_basic_chk_agrees : forall E s b, Inv E s -> Rng s -> arg_ok b ->
+Theorem exec_basic_chk_agrees : forall E s b, max_ok -> Inv E s -> Rng s -> arg_ok b ->
   exec_basic_chk E s b = Some (exec_basic E s b).
 Proof.
-  intros E s b I (Hn & Hh) Ha.
+  intros E s b max_for_bound I (Hn & Hh) Ha.
   assert (P63 : 2 ^ 63 = 9223372036854775808) by reflexivity.
   assert (P62 : 2 ^ 62 = 4611686018427387904) by reflexivity.
   assert (P50 : 2 ^ 50 = 1125899906842624) by reflexivity.
@@ -145,13 +145,9 @@ Qed.
 
 Definition TB (t : Z) : Prop := t <= HB.   (* rejected times never reach the heap; accepted ones are >= 365 days *)
 
-Lemma min_times_pos : 0 < min_time_wait /\ 0 < min_time_update.
-Proof. vm_compute. split; reflexivity. Qed.
-
-Lemma wait_until_rng : forall E s e t, Rng s -> TB t -> Rng (fst (wait_until E s e t)).
+Lemma wait_until_rng : forall E s e t, min_ok -> Rng s -> TB t -> Rng (fst (wait_until E s e t)).
 Proof.
-  intros E s e t (Hn & Hh) Ht. unfold wait_until.
-  pose proof min_times_pos as (Pw & _).
+  intros E s e t (Pw & _) (Hn & Hh) Ht. unfold wait_until.
   assert (P62 : 2 ^ 62 = 4611686018427387904) by reflexivity.
   destruct (t =? 0), (Z.ltb_spec t min_time_wait), (negb (valid E e)), (handle_of s e), (foreign E e); simpl;
     try (split; auto; fail).
@@ -159,10 +155,9 @@ Proof.
   unfold TB, R62 in *. lia.
 Qed.
 
-Lemma update_wait_until_rng : forall E s e t, Rng s -> TB t -> Rng (fst (update_wait_until E s e t)).
+Lemma update_wait_until_rng : forall E s e t, min_ok -> Rng s -> TB t -> Rng (fst (update_wait_until E s e t)).
 Proof.
-  intros E s e t (Hn & Hh) Ht. unfold update_wait_until.
-  pose proof min_times_pos as (_ & Pu).
+  intros E s e t (_ & Pu) (Hn & Hh) Ht. unfold update_wait_until.
   assert (P62 : 2 ^ 62 = 4611686018427387904) by reflexivity.
   assert (Hnew : min_time_update <= t -> - R62 <= t <= HB) by (unfold TB, R62 in *; lia).
   destruct (t =? 0), (Z.ltb_spec t min_time_update), (negb (valid E e)), (handle_of s e), (foreign E e); simpl;
@@ -174,9 +169,9 @@ Proof.
   - split; auto. intros h Hin. apply push_entry_times in Hin. destruct Hin as [Hin| ->]; auto.
 Qed.
 
-Theorem range_preserved : forall E s b, Inv E s -> Rng s -> arg_ok b -> Rng (fst (exec_basic E s b)).
+Theorem range_preserved : forall E s b, min_ok -> max_ok -> Inv E s -> Rng s -> arg_ok b -> Rng (fst (exec_basic E s b)).
 Proof.
-  intros E s b I R Ha. pose proof R as (Hn & Hh).
+  intros E s b MinOk max_for_bound I R Ha. pose proof R as (Hn & Hh).
   assert (P62 : 2 ^ 62 = 4611686018427387904) by reflexivity.
   assert (P50 : 2 ^ 50 = 1125899906842624) by reflexivity.
   assert (P49 : 2 ^ 49 = 562949953421312) by reflexivity.
